@@ -119,6 +119,14 @@ def check(case):
             for k in ks:
                 if out[k]['key'] != k:
                     raise Violation('sort-lookup-detached', f'{desc}\nout[{k!r}] is the example of {out[k]["key"]!r}')
+        if not case['keyless']:
+            # the SAME dataset object sorted again with other (short-lived) key functions: nothing may be remembered
+            for mult in (3, 5, 7):
+                again = [e for e in ds.sort(lambda e, mult=mult: (e['id'] * mult + 1) % 5)]
+                vs2 = [(e['id'] * mult + 1) % 5 for e in again]
+                if sorted(e['id'] for e in again) != ids or any(a > b for a, b in zip(vs2, vs2[1:])):
+                    raise Violation('repeated-sort-wrong', f'{desc}\nafter the sort above, sort by (id*{mult}+1)%5 gave '
+                                                           f'ids {[e["id"] for e in again]} with keys {vs2}')
         ties = len(set(case['sortvals'][:n])) < n
         return (n >= 3 and ties) or rev or case['keyless']
     # groupby
